@@ -4,6 +4,7 @@ import itertools
 from lib import common as C
 from lib import pool, rxval
 from lib.runner import Outcome
+from gen import histories as H
 
 ID = "C01"
 LEAN_TARGETS = ["CLModel.Props.C01"]
@@ -34,6 +35,16 @@ THEOREMS = [
     (M, "C01.fluentC_chain", "fluent: the entries form a gap-free, overlap-free chain over [0, len) (nothing duplicated or reordered)"),
     (M, "C01.fluentC_inside", "fluent: every entity's key lies inside its text, and so does its value unless it has none"),
     (M, "C01.fluentC_localizable_is_filter", "fluent: list(parser) = Entity/Junk entries of walk()"),
+    # round 5: walk()/iter() as generator objects of one parser object
+    (M, "C01.partial_walk_leaves_context", "no operation on a generator object (create, k x next, list, close/abandon) changes parser.ctx or the contents of any Context; for properties/dtd/ini/po the Context objects are not written at all (inc: only filter_empty_lines)"),
+    (M, "C01.passes_leave_context", "the same for any history of generator operations"),
+    (M, "C01.walk_after_partial_is_fresh", "a COMPLETE pass on a parser object in ANY state (any suspended/abandoned generators, any filter_empty_lines left behind) shows exactly what a fresh parser shows for the current contents, both views, all five formats, all texts"),
+    (M, "C01.gen_noctx", "a pass of a parser without context shows nothing, in any state"),
+    (M, "C01.complete_pass_after_any_history", "after ANY history (reads, passes created/partially consumed/interleaved/drained/closed) a complete pass shows the fresh parse of the text of the last readUnicode"),
+    (M, "C01.partial_pass_is_prefix", "a pass abandoned after k entries shows exactly the first k entries of the complete pass (all of them + StopIteration when there are fewer); resuming it shows exactly the remaining suffix"),
+    (M, "C01.next_shows_front_of_remaining", "k x next(g) shows the front of what remained of g and leaves the rest"),
+    (M, "C01.list_shows_remaining", "list(g) shows all that remained of g and always ends"),
+    (M, "C01.interleaved_walks_independent", "properties/dtd/ini/po: what remains of a generator is unchanged by every operation on other generators (inc shares filter_empty_lines: decide witness)"),
     (M, "C01.parser_regexes_safe", "DECIDED on the regenerated regexes: every repeat of every parser regex has a body with at most one outcome per state (no ambiguous nested quantifier); DTDParser.rePE is outside the criterion"),
     (M, "C01.parser_regex_steps_poly", "PROVED: for those regexes the backtracking search tree of one match attempt has at most cC*(len+2)^dC nodes (dC <= 5; PoParser.reListItem: 18*(len+2)^2)"),
     (M, "C01.parser_regex_match_poly", "PROVED: the step-counting copy of the engine returns what matchAt returns and makes at most cC*(len+2)^dC calls"),
@@ -44,12 +55,18 @@ LEVEL_TEXT = ("Lean 4 theorems, for ALL texts with no length bound: the walk of 
               "DefinesParser.walk resets filter_empty_lines when a walk starts); entity key and value spans "
               "lie inside the entity; the Fluent walk (reading entry.content) is lossless, a gap-free chain, and has its keys/values inside "
               "for every fluent.syntax body satisfying the decidable contract contractB, which the model evaluates on every generated input; "
+              "walk()/iter() are modelled as generator objects of one parser object (heap of Context objects, parser.ctx, suspended generators): "
+              "a complete pass in ANY object state — after any history of partial, abandoned, resumed, interleaved passes and re-reads — shows "
+              "the fresh parse of the text last read, a pass abandoned after k entries shows exactly its first k entries and resuming shows "
+              "the rest, generator operations never write a Context (inc: only filter_empty_lines, reset when a pass starts); "
               "three dead branches of getNext are proved dead; every repeat of 21 of the 22 parser regexes is proved unambiguous per "
               "iteration (decided on the regenerated regexes), which bounds the backtracking search tree of a match attempt by "
               "cC*(len+2)^dC with dC <= 5 (proved, also for a step-counting copy of the engine). "
               "The theorems are stated over regexes regenerated from /repo on every run, so a regex edit re-proves or breaks them; the "
               "hand-written control-flow model is tied to the Python by bounded-exhaustive token sequences, random texts, composite tokens "
-              "reaching every live line of getNext/getJunk/createEntity/walk, and call sequences on one parser object")
+              "reaching every live line of getNext/getJunk/createEntity/walk, call sequences on one parser object, and histories of generator "
+              "objects (passes abandoned after 0, 1, 2, half, all-1, all entries by next/break/zip/islice/close, parse() and key lookups, "
+              "readContents/readFile, explicit interleaving), each judged by construction against a fresh parser object")
 LEVEL_NOTE = ("trusted: Lean kernel; Rx = CPython re on the audited subset (validated every run); translator; hand-written getNext/walk "
               "models (correspondence); fluent.syntax body spans and junk contents are an input with a monitored decidable contract; the step "
               "bound is about the model engine Rx.m, not about CPython's sre; texts with carriage returns are outside the property")
@@ -63,6 +80,7 @@ TRUSTED = [
     "regexes are regenerated from /repo by the translator on every run",
     "fluent.syntax body spans and junk contents are an input of the Fluent model (contract contractB monitored)",
     "CLModel/Parser/C01Sess.lean: parser object over call sequences (tied by `c01.sess`), Fluent walk reading entry.content (tied by `c01.fluentc`)",
+    "CLModel/Parser/C01Gen.lean: walk()/iter() as generator objects (heap of Context objects, parser.ctx, suspended generators), tied by `c01.gen` on histories with partial, abandoned, resumed, interleaved passes and re-reads",
 ]
 ASSUMPTIONS = ["texts contain no carriage returns (as the property states); a separate informational stream with \\r is not judged"]
 
@@ -247,6 +265,7 @@ def run(ctx):
     # regex semantics first: everything below rests on it
     out.merge(rxval.validate(ctx, per_pattern=ctx.n(60, 1500), random_patterns=ctx.n(60, 2000)))
     sess_texts = {}
+    hist_texts = {}
     for fmt in FORMATS:
         texts, exhaustive = gen_texts(ctx, fmt)
         extra = gen_extra(ctx, fmt)
@@ -296,6 +315,12 @@ def run(ctx):
             for t, r in zip(texts, res):
                 if "r" in r:
                     _fresh_cache[(fmt, t)] = (filt(r["r"]["canon"]), r["r"]["loc"])
+        # round 5: texts for the history stream, with the number of entries of their two views
+        cnt = {}
+        for t, r in zip(texts, res):
+            if "r" in r and not r["r"]["canon"].startswith("runaway") and t and t not in STRESS[fmt]:
+                cnt[t] = (r["r"]["canon"].count(" | "), len(r["r"]["loc"]))
+        hist_texts[fmt] = (texts[:main_n], extra, cnt)
         for t, r, mo, mloc in zip(texts, res, model, modelloc):
             out.evaluations += 1
             bad = oracle(fmt, t, r)
@@ -322,6 +347,7 @@ def run(ctx):
     out.contracts["fluent_body_contract_checked"] = out.distribution.get("ftl.cases", 0) + out.distribution.get("ftl.extra", 0)
     out.contracts["fluent_contractB_checked_by_model_and_python"] = out.distribution.get("ftl.fluentc", 0)
     run_sessions(ctx, out, sess_texts)
+    run_histories(ctx, out, hist_texts)
     run_po_strings(ctx, out)
     return out
 
@@ -375,6 +401,122 @@ def run_sessions(ctx, out, sess_texts):
             out.disagreements.append({"op": "c01.fluentc-noctx", "model": mo})
 
 
+# =============================================================================== round 5: histories on one parser object
+INC_SHARED_FLAG = "C01-inc-interleaved-walks-share-filter-flag"
+FTL_STALE_CTX = "C01-fluent-resumed-walk-uses-new-context"
+
+
+def history_oracle(fmt, ops, r):
+    """property oracle on a history of ONE parser object, by construction: whatever was consumed before, every COMPLETE pass shows
+    exactly the entries of a fresh parse of the text last read — lossless in the full view, the Entity/Junk entries of the full view
+    in the localizable view —, a pass abandoned after k entries shows exactly the first k of them, a resumed pass the rest.
+    Returns None or (message, finding id)."""
+    if r.get("exc") == "Hang":
+        return ("a history on one parser object does not terminate", None)
+    if "exc" in r:
+        return ("a history on one parser object raised %s: %s" % (r["exc"], r.get("msg")), None)
+    v = r["r"]
+    fresh = v["fresh"]
+    # the reference itself: a fresh parser object on the same text obeys the property (lossless; localizable view = filter)
+    for t, f in fresh.items():
+        expected = t[1:] if (fmt == "dtd" and t.startswith("\ufeff")) else t
+        if f["joined"] != expected:
+            return ("fresh parser object: concatenated entry texts differ from the input", None)
+        if [e for e in f["full"] if e[0] in "EJ"] != f["loc"]:
+            return ("fresh parser object: localizable-only view is not the entity+junk entries of the full view", None)
+
+    def expected_of(text, loc):
+        full = fresh[text]["full"]
+        return [e for e in full if e[0] in "EJ"] if loc else full
+
+    tracked = H.track(ops, expected_of)
+    bad = H.judge(tracked, v["recs"])
+    if bad:
+        msg, tr = bad
+        # root causes of the two recorded candidates (both need two passes alive at the same time):
+        #  * DefinesParser keeps `filter_empty_lines` of a pass on the Context: a pass SUSPENDED while another pass ran on the same
+        #    Context object resumes with the other pass's flag;
+        #  * FluentParser.walk reads `self.ctx` at every yield and for the final white-space instead of the Context its pass
+        #    started on: a pass resumed after the parser has read another text mixes the two texts.
+        fid = INC_SHARED_FLAG if (fmt == "inc" and tr.get("exposed")) else None
+        if fmt == "ftl" and tr.get("stale"):
+            fid = FTL_STALE_CTX
+        return (msg, fid)
+    for tr, rec in zip(tracked, v["recs"]):
+        if tr["whole"] and not tr["loc"] and tr.get("text") is not None:
+            t = tr["text"]
+            expected = t[1:] if (fmt == "dtd" and t.startswith("\ufeff")) else t
+            if rec["joined"] != expected:
+                return ("complete pass (operation %d): concatenated entry texts differ from the text last read" % tr["i"], None)
+        if tr["loc"] and rec["kinds"].strip("EJ"):
+            return ("localizable-only pass (operation %d) shows an entry that is neither Entity nor Junk" % tr["i"], None)
+        for j, idx, has in rec.get("lookups", []):
+            # parse(): the KeyedTuple finds an entry with that key for every entry it holds
+            if not isinstance(idx, int) or idx < 0 or rec["keys"][idx] != rec["keys"][j] or not has:
+                return ("parse() (operation %d): looking up the key of entry %d gives %r" % (tr["i"], j, idx), None)
+    return None
+
+
+def histories_for(ctx, fmt, main, extra, cnt):
+    rng = ctx.rng("c01h", fmt)
+    # texts with at least three entries, many with junk / instructions / comments; all composite tokens
+    pool_ = [t for t in main if cnt.get(t, (0, 0))[0] >= 3]
+    step = max(1, len(pool_) // ctx.n(50, 700))
+    pick = pool_[::step][:ctx.n(50, 700)]
+    pick += [t for t in extra if t in cnt and cnt[t][0] >= 2][:ctx.n(45, 400)]
+    if fmt == "inc":
+        # state on the Context: passes over `#filter emptyLines` texts
+        fl = [t for t in main if "filter emptyLines" in t and cnt.get(t, (0, 0))[0] >= 3]
+        pick += fl[::max(1, len(fl) // ctx.n(25, 300))][:ctx.n(25, 300)]
+    pick = list(dict.fromkeys(pick))
+    hs = [[["P", 0, 1, "next"], ["W", 0], ["W", 1]], [["G", 0], ["N", 0, 2], ["K"]]]
+    for i, t in enumerate(pick):
+        t2 = pick[(i * 7 + 3) % len(pick)] if i % 5 else ""
+        n, m = cnt[t]
+        hs += H.directed(t, n, m, t2, i, concat=True)
+    if fmt == "inc":
+        for i, t in enumerate(fl[::max(1, len(fl) // ctx.n(40, 400))][:ctx.n(40, 400)]):
+            hs += H.every_cut(t, cnt[t][0], i)
+    allt = pick + [""]
+    for _ in range(ctx.n(500, 8000)):
+        hs.append(H.random_history(rng, allt, cnt))
+    return hs
+
+
+def run_histories(ctx, out, hist_texts):
+    known = {k["id"] for k in C.load_known_findings().get("known", [])}
+    candidates = {}
+    for fmt, (main, extra, cnt) in hist_texts.items():
+        hs = histories_for(ctx, fmt, main, extra, cnt)
+        res = pool.pmap("impl.parse", "impl_history", [[fmt, h] for h in hs], timeout=6.0)
+        model = None
+        if fmt != "ftl" and ctx.model_ok:
+            model = C.run_driver_parallel(["c01.gen %s %s" % (fmt, H.to_model(h, C.enc)) for h in hs])
+        out.count("hist.%s" % fmt, len(hs))
+        for i, (h, r) in enumerate(zip(hs, res)):
+            out.evaluations += 1
+            bad = history_oracle(fmt, h, r)
+            if "r" in r:
+                out.nontrivial.add((fmt, "hist", r["r"]["canon"]))
+                for op in h:
+                    out.count("hist.op.%s" % (op[0] if op[0] != "P" else "P." + op[3]))
+            if bad:
+                msg, fid = bad
+                if fid is not None and fid not in known:
+                    # a candidate finding that is not recorded in known_findings.json yet: reported in the evidence notes,
+                    # judged (KNOWN-FINDING) as soon as it is recorded
+                    candidates.setdefault(fid, {"what": msg, "input": {"fmt": fmt, "history": h}})
+                    out.count("hist.%s.candidate.%s" % (fmt, fid))
+                    continue
+                out.violations.append({"what": "%s: %s" % (fmt, msg), "input": {"fmt": fmt, "history": h}, "finding": fid})
+                out.count("hist.%s.violations" % fmt)
+            elif model is not None and ("r" not in r or model[i] != r["r"]["canon"]):
+                out.disagreements.append({"op": "c01.gen", "fmt": fmt, "history": h,
+                                          "impl": r["r"]["canon"] if "r" in r else r, "model": model[i]})
+    for fid, c in candidates.items():
+        out.notes.append("CANDIDATE FINDING %s (not in known_findings.json, not judged): %s; first input %r" % (fid, c["what"], c["input"]))
+
+
 def run_po_strings(ctx, out):
     """round 4: ties poCreate/poEval (evaluated msgid, msgctxt, msgstr of every PO entity) through the op po.strings"""
     rng = ctx.rng("c01po")
@@ -405,6 +547,11 @@ def replay(payload):
     res = []
     for v in payload.get("violations", []):
         i = v["input"]
+        if "history" in i:
+            r = pool.pmap("impl.parse", "impl_history", [[i["fmt"], i["history"]]], timeout=10.0)[0]
+            bad = history_oracle(i["fmt"], i["history"], r)
+            res.append({"input": i, "oracle": bad[0] if bad else None})
+            continue
         if "session" in i:
             r = pool.pmap("impl.parse", "impl_session", [[i["fmt"], i["session"]]], timeout=5.0)[0]
             last = [c[1] for c in i["session"] if c[0] == "R"]
